@@ -60,6 +60,33 @@ func gen(r *Rng, tier string, emit Emit) {
 			emit("C", "save", H(vb))
 		}
 	}
+	// coverage audit: values the grammar allows but the generator never drew (uefigen.Diversify, a
+	// post-pass with its own stream): a non-zero Reserved byte in the volume header ("reserved header
+	// bits" of the property text), file attribute bit 0x80, USER_INTERFACE / VERSION sections with the
+	// empty string, GUID-defined sections that carry a codec GUID without the processing-required
+	// attribute (opaque, kept verbatim), pad-type files that are not what CreatePadFile writes, header-only
+	// files of a sectioned file type (kept verbatim: nothing to rebuild them from). All inside the proved
+	// grammar: the model confirms membership.
+	nd := 80
+	if tier == "thorough" {
+		nd = 1000
+	}
+	for it := 0; it < nd; it++ {
+		rr := r.Fork(uint64(0xD1C01000 + it))
+		o := uefigen.Opts{MaxDepth: rr.Pick(0, 0, 1, 2), Strings: true, Alignments: rr.Chance(2, 3), BigBodies: rr.Chance(1, 6), LargeSecs: true}
+		reg := uefigen.GenRegion(rr, o)
+		uefigen.Diversify(reg, rr, uefigen.DivOpts{Reserved: true, AttrHigh: true, EmptyStrings: true, OpaqueCodec: true, PadFiles: true, EmptySectioned: true})
+		img, _ := uefigen.EmitRegion(reg)
+		if len(img) == 0 || len(img) > 24000 {
+			continue
+		}
+		emit("P", "p_save_identity", H(img))
+		emit("C", "save", H(img))
+		if spec, ok := uefigen.SpecString(reg); ok {
+			emit("C", "grammar", H(img), spec)
+			emit("C", "member_bytes", H(img))
+		}
+	}
 }
 
 func main() {
